@@ -98,12 +98,12 @@ func iterateShared(fn subscription.IterateFn, options subscription.IterationOpti
 	}
 	// 查询指定clientID下的所有topic
 	if options.ClientID != "" {
-		for _, v := range index[options.ClientID] {
-			for _, c := range v.shared {
-				if sub, ok := c[options.ClientID]; ok {
-					if !fn(options.ClientID, sub) {
-						return false
-					}
+		for key, v := range index[options.ClientID] {
+			// key is shareName/topicFilter
+			shareName := strings.SplitN(key, "/", 2)[0]
+			if sub, ok := v.shared[shareName][options.ClientID]; ok {
+				if !fn(options.ClientID, sub) {
+					return false
 				}
 			}
 		}
@@ -288,7 +288,12 @@ func (db *TrieDB) SubscribeLocked(clientID string, subscriptions ...*gmqtt.Subsc
 				db.clientStats[clientID] = &subscription.Stats{}
 			}
 		}
-		if _, ok := index[clientID][topicName]; !ok {
+		indexKey := topicName
+		if sub.ShareName != "" {
+			// sharedIndex is keyed by shareName/topicFilter
+			indexKey = sub.ShareName + "/" + topicName
+		}
+		if _, ok := index[clientID][indexKey]; !ok {
 			db.stats.SubscriptionsTotal++
 			db.stats.SubscriptionsCurrent++
 			db.clientStats[clientID].SubscriptionsTotal++
@@ -296,7 +301,7 @@ func (db *TrieDB) SubscribeLocked(clientID string, subscriptions ...*gmqtt.Subsc
 		} else {
 			rs[k].AlreadyExisted = true
 		}
-		index[clientID][topicName] = node
+		index[clientID][indexKey] = node
 	}
 	return rs
 }
@@ -325,12 +330,16 @@ func (db *TrieDB) UnsubscribeLocked(clientID string, topics ...string) {
 			index = db.userIndex
 			topicTrie = db.userTrie
 		}
+		indexKey := topic
+		if shareName != "" {
+			indexKey = shareName + "/" + topic
+		}
 		if _, ok := index[clientID]; ok {
-			if _, ok := index[clientID][topic]; ok {
+			if _, ok := index[clientID][indexKey]; ok {
 				db.stats.SubscriptionsCurrent--
 				db.clientStats[clientID].SubscriptionsCurrent--
 			}
-			delete(index[clientID], topic)
+			delete(index[clientID], indexKey)
 		}
 		topicTrie.unsubscribe(clientID, topic, shareName)
 	}
